@@ -95,3 +95,7 @@ Proof. vm_compute. reflexivity. Qed.
 (* proxy_handler.go: the Trailer announcement is joined with ", ", late trailers go under net/http.TrailerPrefix *)
 Lemma ob_handler_trailer_strings : hw_trailer_sep = b ", " /\ hw_trailer_prefix = b "Trailer:".
 Proof. vm_compute. split; reflexivity. Qed.
+
+(* proxy_handler.go writeResponse: whatever error ends the body copy, the handler aborts *)
+Lemma ob_handler_copy_error_aborts : hw_copy_error_aborts = true.
+Proof. vm_compute. reflexivity. Qed.
